@@ -96,7 +96,7 @@ UNITS = [None, 'KM', 'SEC', 'M']
 UEXP = {None: None, 'KM': (1, 0, 0), 'M': (1, 0, 0), 'SEC': (0, 1, 0)}
 
 
-def gen_num_operand(rng, shape, item=(), cls='Scalar', unit=None, rep=None):
+def gen_num_operand(rng, shape, item=(), cls='Scalar', unit=None, rep=None, drank=0):
     rep = rep or rng.choice(MREPS)
     n = int(np.prod(shape))
     isz = int(np.prod(item))
@@ -104,7 +104,7 @@ def gen_num_operand(rng, shape, item=(), cls='Scalar', unit=None, rep=None):
     mask = make_mask(rng, shape, rep)
     return {'cls': cls, 'shape': list(shape), 'item': list(item), 'vals': vals,
             'mask': mask if isinstance(mask, bool) else [bool(x) for x in np.asarray(mask).ravel()],
-            'mrep': rep, 'unit': unit, 'float': rng.random() < 0.5}
+            'mrep': rep, 'unit': unit, 'float': rng.random() < 0.5, 'drank': drank}
 
 
 def build_num(d, Pm):
@@ -119,7 +119,7 @@ def build_num(d, Pm):
         arr = arr.item()
         if not isinstance(mask, bool):
             mask = bool(mask)
-    return cls(arr, mask, units=units)
+    return cls(arr, mask, units=units, drank=d.get('drank', 0))
 
 
 def coq_nobj(obj, d):
@@ -289,18 +289,26 @@ def gen_cases(rng, tier):
             sa, sb = rng.choice(BPAIRS)
             cls, item = rng.choice([('Scalar', ()), ('Scalar', ()), ('Vector', (3,)), ('Pair', (2,)),
                                     ('Vector', (2,))])
+            drank = 0
+            if rng.random() < 0.15:     # items with denominator axes: an item is numerator + denominator
+                cls, item, drank = rng.choice([('Scalar', (2,), 1), ('Vector', (3, 2), 1), ('Scalar', (2, 2), 2),
+                                               ('Pair', (2, 2), 1), ('Vector', (2, 3), 1)])
             ua = rng.choice(UNITS) if rng.random() < 0.3 else None
             ub = rng.choice(UNITS) if rng.random() < 0.3 else ua
-            a = gen_num_operand(rng, sa, item, cls, ua)
+            a = gen_num_operand(rng, sa, item, cls, ua, drank=drank)
+            drank2 = drank
             if rng.random() < 0.1:       # incompatible items
                 cls2, item2 = rng.choice([('Vector', (3,)), ('Pair', (2,)), ('Scalar', ())])
+                drank2 = 0
             else:
                 cls2, item2 = cls, item
-            b = gen_num_operand(rng, sb, item2, cls2, ub)
+            b = gen_num_operand(rng, sb, item2, cls2, ub, drank=drank2)
             if rng.random() < 0.15:      # identical operand (reflexivity), possibly copied mask
                 b = dict(a)
             k = rng.random()
-            if k < 0.35:
+            if drank and 0.35 <= k < 0.8:
+                cases.append({'kind': rng.choice(['cmp', 'tvlcmp']), 'op': rng.choice(['eq', 'ne']), 'a': a, 'b': b})
+            elif k < 0.35:
                 cases.append({'kind': 'cmp', 'op': rng.choice(['eq', 'ne']), 'a': a, 'b': b})
             elif k < 0.55:
                 cases.append({'kind': 'cmp', 'op': rng.choice(['lt', 'le', 'gt', 'ge']), 'a': a, 'b': b})
@@ -348,6 +356,8 @@ def ref_cmp(op, a, b, oa, ob):
         s = None
     if a['cls'] != b['cls'] and a['item'] != b['item'] and op in ('eq', 'ne'):
         return None     # conversion between classes re-reads axes; the property does not say how
+    if a.get('drank', 0) != b.get('drank', 0):
+        return None     # numerator/denominator split differs: the property does not say
     if op in ('eq', 'ne'):
         if not compatible or s is None:
             return ('bool', op == 'ne')
